@@ -128,7 +128,7 @@ def finish(pid, args, seed, jobs, results, t0):
         for r in inconclusive[:5]:
             print(f'INCONCLUSIVE: family {r["family"]}: {r.get("inconclusive") or "required path truncated"}')
             if r.get('traceback') and os.environ.get('VERIF_DEBUG'): print(r['traceback'])
-        exit_code = 2
+        if exit_code == 0: exit_code = 2          # a confirmed violation stays exit 1
     if not args.no_evidence:
         write_evidence(pid, args.tier, seed, jobs, results, violations, printed_known, unconfirmed, inconclusive, time.time() - t0)
     print(f'{pid} {args.tier}: families={len(results)} states={sum(r.get("states", 0) for r in results)} '
